@@ -123,3 +123,66 @@ pub fn low_id_dec<X: reed_solomon_simd::engine::Engine>(mut d: LowRateDecoder<X>
     d.reset(k, r, sb).unwrap();
     d
 }
+
+/// chains of resets on one object (third-round seed `C17c`): after the working space was
+/// sized by the first configuration, every later reset whose need fits into the capacity
+/// HELD (not the current length) must keep pointer and capacity — including growing again
+/// after a shrink. Rounds in between exercise the buffers.
+pub fn enc_chain<E: Enc + EncState>(cfgs: &[(usize, usize, usize)]) {
+    let (k0, r0, s0) = cfgs[0];
+    let mut e = E::mk(k0, r0, s0).unwrap();
+    let v0 = e.snap().view.unwrap().shards;
+    let mut n = 1;
+    while n < cfgs.len() {
+        let (kk, rr, sb) = cfgs[n];
+        e.rst(kk, rr, sb).unwrap();
+        let v = e.snap().view.unwrap().shards;
+        assert!(v.shard_count * v.shard_len_64 <= v0.data_capacity);
+        assert!(v.data_ptr == v0.data_ptr && v.data_capacity == v0.data_capacity, "a reset that fits in the held working space reallocated it");
+        let mut i = 0;
+        while i < kk {
+            let s = vec![k::any::<u8>(); sb];
+            e.add(&s).unwrap();
+            i += 1;
+        }
+        {
+            let out = e.enc();
+            assert!(out.unwrap().recovery(0).is_some());
+        }
+        let v = e.snap().view.unwrap().shards;
+        assert!(v.data_ptr == v0.data_ptr && v.data_capacity == v0.data_capacity, "a round reallocated the working space");
+        n += 1;
+    }
+    kcover!(true);
+}
+
+pub fn dec_chain<D: Dec + DecState>(cfgs: &[(usize, usize, usize)]) {
+    let (k0, r0, s0) = cfgs[0];
+    let mut d = D::mk(k0, r0, s0).unwrap();
+    let w0 = d.snap().view.unwrap();
+    let mut n = 1;
+    while n < cfgs.len() {
+        let (kk, rr, sb) = cfgs[n];
+        d.rst(kk, rr, sb).unwrap();
+        let w = d.snap().view.unwrap();
+        assert!(w.shards.shard_count * w.shards.shard_len_64 <= w0.shards.data_capacity);
+        assert!(w.shards.data_ptr == w0.shards.data_ptr && w.shards.data_capacity == w0.shards.data_capacity, "a reset that fits in the held working space reallocated it");
+        let need_bits = core::cmp::max(w.original_base_pos + w.original_count, w.recovery_base_pos + w.recovery_count);
+        assert!(need_bits <= w0.received_len);
+        assert!(w.received_ptr == w0.received_ptr && w.received_len == w0.received_len, "a non-growing reset reallocated the received bitmap");
+        let mut i = 0;
+        while i < kk {
+            let s = vec![k::any::<u8>(); sb];
+            d.add_o(i, &s).unwrap();
+            i += 1;
+        }
+        {
+            let out = d.dec();
+            assert!(out.is_ok());
+        }
+        let w = d.snap().view.unwrap();
+        assert!(w.shards.data_ptr == w0.shards.data_ptr && w.received_ptr == w0.received_ptr, "a round reallocated working memory");
+        n += 1;
+    }
+    kcover!(true);
+}
